@@ -104,6 +104,16 @@ def _frame_kind(cfg, fn, name: str, use: ast.AST, depth=0) -> Optional[str]:
     return None
 
 
+class _SubstName(ast.NodeTransformer):
+    def __init__(self, name, value):
+        self.name, self.value = name, value
+
+    def visit_Name(self, n):
+        import copy as _copy
+
+        return _copy.deepcopy(self.value) if n.id == self.name and isinstance(n.ctx, ast.Load) else n
+
+
 def viability_condition(ctx, fi: FunctionInfo):
     """Propositional execution condition of `best_association = <current combination>` in
     _test_viability, with flags replaced by their dominating definitions."""
@@ -145,6 +155,24 @@ def viability_condition(ctx, fi: FunctionInfo):
                 red = (inner.func.attr, inner.func.value)  # vectorised spelling: same truth value
             if red is not None:
                 kind, arg = red
+                # a local standing for the compared column (`frequencies = rates["frequency"]`) is looked
+                # through; one that is bound differently on different paths is a different test
+                params_ = {a.arg for a in fn.args.posonlyargs + fn.args.args + fn.args.kwonlyargs}
+                for _ in range(3):
+                    changed_ = False
+                    for nm in [x for x in ast.walk(arg) if isinstance(x, ast.Name) and isinstance(x.ctx, ast.Load) and x.id not in params_ and x.id != "self"]:
+                        defs_ = [a.value for a in walk_no_nested(fn) if isinstance(a, ast.Assign) and len(a.targets) == 1 and isinstance(a.targets[0], ast.Name) and a.targets[0].id == nm.id]
+                        if not any("['frequency']" in unparse(d) or "['target_rate']" in unparse(d) for d in defs_):
+                            continue
+                        d_ = dominating_def(cfg, fn, nm.id, use)
+                        if d_ is None:
+                            # several bindings reach the test (re-bound under a condition)
+                            return p_atom(f"TEST_ON_{nm.id}_WHICH_IS_BOUND_DIFFERENTLY_ON_DIFFERENT_PATHS")
+                        arg = _SubstName(nm.id, d_).visit(__import__("copy").deepcopy(arg))
+                        changed_ = True
+                        break
+                    if not changed_:
+                        break
                 # MINFREQ: all(F["frequency"] >= self.min_freq_mod)   /  not any(F["frequency"] < t)
                 c2 = cmp_canon(arg)
                 if c2 and ("['frequency']" in c2[0] or "['frequency']" in c2[2]):
